@@ -692,7 +692,11 @@ func (h *c26History) liveFail(class, problem string, extra map[string]string) {
 		f[k] = v
 	}
 	h.viol++
-	h.r.Violation(class, f, map[string]any{"history": h.no, "cfg": h.cfg, "ops": h.ops, "problem": problem})
+	h.r.Event("live_rule_"+class, 1)
+	c26TallyMu.Lock()
+	c26Tallies[class+" phase=live"]++
+	c26TallyMu.Unlock()
+	h.r.Violation(class, f, map[string]any{"history": h.no, "cfg": h.cfg, "ops": append([]string(nil), h.ops...), "problem": problem})
 }
 
 func (h *c26History) pendingBytes() int64 {
@@ -811,7 +815,11 @@ func (h *c26History) run(rg *vkit.Rand, nOps int) {
 			}
 			got := 0
 			for got < want && sc.Next() {
-				if h.adv+got >= len(h.entries) || !bytes.Equal(sc.Bytes(), h.entries[h.adv+got]) {
+				if h.adv+got >= len(h.entries) {
+					h.liveFail("live_scan_mismatch", fmt.Sprintf("scanner yields %d bytes after the last acknowledged entry e%d", len(sc.Bytes()), len(h.entries)), nil)
+					break
+				}
+				if !bytes.Equal(sc.Bytes(), h.entries[h.adv+got]) {
 					h.liveFail("live_scan_mismatch", fmt.Sprintf("scanner item %d is not e%d", got, h.adv+got+1), nil)
 				}
 				got++
